@@ -11,7 +11,7 @@ SPEC = {
         {"kind": "pubscript", "name": "scripted", "module": "CorrC10", "corr": "Run/CorrPub.v (Model/Pub.v vs /repo/publisher, scripted schedules, monitor mon10)",
          "rule": "scripted: each case = one script in which Subscriber.Close and/or Publication.Close (once, twice, both) is injected at a position of a base script, or is called from inside an OnTimeout / OnFiltered callback (of the own subscriber, of the publication; must return within 3s), of Subscribe / Publish / non-blocking receive / Advance stimuli, run in a child process (a panic is an observation: exit status + stderr); after every stimulus the harness waits for quiescence; the trace (close = LoadAndDelete + wake-up, dropped deliveries, channel closed, receive outcomes value/nothing/closed, channel lengths, live delivery goroutines) is replayed through the model by Coq; the C10 monitor: no panic, no call stuck for 3s, 'closed' seen only on a closed subscriber, nothing received after 'closed', subscribers that were not closed still receive every accepted message exactly once, no delivery goroutine left. distinct = by (family, stimuli); non-trivial = a close happened while deliveries to that subscriber were pending or messages were buffered."},
         {"kind": "pubstress", "name": "stress", "mode": "c10", "corr": "Go-side monitor (harness/cmd/pubstress -mode c10, -race, one child process per round)",
-         "rule": "free-running (-race): first 2 child processes x 80 'hot close' trials (8 goroutines publish as fast as they can to a draining subscriber with buffer 0/1/64 and timeout 1min/0/-1s; after 100-800us 1-2 callers close the subscriber or the publication: Close must return within 10s - on a hang the stacks of the package's goroutines go into the replay -, no panic, the reader sees 'closed', publishers are not stuck, the other subscriber still works); then 3 child processes x 4000 trials of 2-6 closers (Subscriber.Close, one of them possibly Publication.Close) released at the same instant on a subscriber holding a buffered message (no panic, no hang, the message readable then 'closed', the other subscriber untouched); then each round (own child process) = 1-4 publishers publishing continuously for 20-80ms, 1-6 subscribers with draining receivers, 0-3 concurrent closers per subscriber at random moments, half of the short-timeout subscribers closing themselves (or the publication) from inside OnTimeout, (same subscriber closed from several goroutines), in a third of the rounds 1-2 concurrent Publication.Close; a panic, a race report, a Close not returning within 10s, a receiver not seeing 'closed', duplicates / foreign / rejected values, a never-closed 60s-timeout subscriber missing a message, or goroutines of the package left = failure."},
+         "rule": "free-running (-race): first 2 child processes x 80 'hot close' trials (8 goroutines publish as fast as they can to a draining subscriber with buffer 0/1/64 and timeout 1min/0/-1s; after 100-800us 1-2 callers close the subscriber or the publication: Close must return within 10s - on a hang the stacks of the package's goroutines go into the replay -, no panic, the reader sees 'closed', publishers are not stuck, the other subscriber still works); then one child process x 320 trials of 4-32 consumers that re-subscribe the moment their channel closes while Publication.Close is still running (each new subscriber must afterwards be either closed or fully alive: a later Publish reaches it and its own Close closes its channel); then 3 child processes x 4000 trials of 2-6 closers (Subscriber.Close, one of them possibly Publication.Close) released at the same instant on a subscriber holding a buffered message (no panic, no hang, the message readable then 'closed', the other subscriber untouched); then each round (own child process) = 1-4 publishers publishing continuously for 20-80ms, 1-6 subscribers with draining receivers, 0-3 concurrent closers per subscriber at random moments, half of the short-timeout subscribers closing themselves (or the publication) from inside OnTimeout, (same subscriber closed from several goroutines), in a third of the rounds 1-2 concurrent Publication.Close; a panic, a race report, a Close not returning within 10s, a receiver not seeing 'closed', duplicates / foreign / rejected values, a never-closed 60s-timeout subscriber missing a message, or goroutines of the package left = failure."},
     ],
     "trusted": ["sync.Map (Range/Store/LoadAndDelete), channels/select (send on / close of a closed channel panics), close(done) wake-up, sync.RWMutex (writer waits for readers; readers arriving later see the writer's writes) are modelled by contract",
                 "the three actions LoadAndDelete / close(s.done) of Close are one atomic step of the model (CloseSub); the lock acquisition + closed=true + close(receiveCh) another (FinishClose)",
